@@ -1,4 +1,5 @@
 import Gtree.Model.Bytes
+import Gtree.Model.Path
 /-
   The parts of Go's `strings` package (and the built-ins `len`, `%`, `/`, indexing) that the functions
   translated from /repo by /verif/translate use, over byte strings.  These are the *general* functions (string
@@ -127,6 +128,10 @@ def strings_Count (s sep : Bytes) : Int :=
 
 /-- `strings.ContainsAny(s, chars)` for ASCII `chars` -/
 def strings_ContainsAny (s chars : Bytes) : Bool := s.any (fun b => chars.contains b)
+
+/-- `io/fs.ValidPath` (modelled in Model/Path.lean: valid UTF-8, no empty, "." or ".." element, no leading or
+    trailing slash — except the path "." itself) -/
+def fs_ValidPath (p : Bytes) : Bool := Gtree.fsValidPath p
 
 /-- `xs[i]` on a slice of strings (out of range is a panic in Go; the callers exclude it) -/
 def idx (xs : List Bytes) (i : Nat) : Bytes := xs.getD i []
